@@ -290,6 +290,22 @@ func (c *ctx) exec(what string, in []byte, crc bool, v verdict, src lzwork.Sourc
 			binary.LittleEndian.Uint16(in), lzref.CRC(in[2:]))
 	case v.undefined && res.Total == int64(len(v.out)):
 		c.o.Count("close_success_bytes_not_judged(undefined_window_reference)", 1)
+		// Which bytes such a stream decodes to is not defined by the format - but whatever they are,
+		// they must be a function of the stream alone: decode it twice more, each time right after a
+		// different unrelated message went through a Reader of its own (read to the end and closed).
+		// A decoder that recycles state between messages shows the previous message's bytes here.
+		if stopAfter < 0 {
+			big := lzwork.Limits{MaxReads: 1 << 20, MaxBytes: 1 << 20, StopAfter: -1}
+			for i, dirt := range dirtyStreams() {
+				lzwork.Decompress(dirt, true, lzwork.Sources[0], bufPlans[3], big)
+				again := lzwork.Decompress(in, crc, src, rp, lim)
+				c.o.Count("history_independence_decodes", 1)
+				if again.Panic == nil && again.NewErr == nil && again.Closed && again.CloseErr == nil && !bytes.Equal(again.Out, res.Out) {
+					violate("close-nil:history-dependent", "Close() == nil twice for the same stream, but the bytes read differ after an unrelated message #%d was decoded in between: the decoding is not a function of the stream", i)
+					break
+				}
+			}
+		}
 	case res.Total < int64(len(v.out)) && (v.undefined || bytes.Equal(res.Out, v.out[:res.Total])):
 		violate("close-nil:short-read", "Close() == nil after only %d of the %d declared bytes had been read", res.Total, len(v.out))
 	case res.Total != int64(len(v.out)) || !bytes.Equal(res.Out, v.out):
@@ -721,4 +737,17 @@ func run(cs vrt.Case) vrt.Obs {
 		m["example_execution"] = c.example
 	}
 	return o
+}
+
+var dirtyOnce [][]byte
+
+// dirtyStreams are two valid, unrelated B2 streams whose first 60 decoded bytes are distinctive.
+func dirtyStreams() [][]byte {
+	if dirtyOnce == nil {
+		dirtyOnce = [][]byte{
+			lzref.EncodeB2(bytes.Repeat([]byte("PREVIOUS-MESSAGE-ONE/0123456789/"), 12)),
+			lzref.EncodeB2(bytes.Repeat([]byte("another earlier message: ZYXWVUTSRQ "), 9)),
+		}
+	}
+	return dirtyOnce
 }
